@@ -18,7 +18,7 @@ SPECS = {
     # property -> list of (spec name, module, tiers)
     "C02": [("c02_frame_decoder_memo", "c02m")],
     "C03": [("c03_request_stream_sequences", "c03"), ("c02_frame_decoder_memo", "c02m")],
-    "C04": [("c04_control_stream_rules", "c04"), ("c02_frame_decoder_memo", "c02m"), ("c19_uni_stream_header", "c19m")],
+    "C04": [("c04_control_stream_rules", "c04"), ("c02_frame_decoder_memo", "c02m"), ("c19_uni_stream_header", "c19m"), ("c04_uni_stream_classification", "c04b")],
     "C06": [("c02_frame_decoder_memo", "c02m"), ("c19_uni_stream_header", "c19m")],
     "C07": [("c07_stream_scoped_faults", "c03"), ("c02_frame_decoder_memo", "c02m")],
     "C05": [("c05_interleavings", "c05")],
@@ -27,7 +27,7 @@ SPECS = {
     "C10": [("c10_send_side_limit", "c10m")],
     "C11": [("c11_static_table_lookups", "c11m")],
     "C12": [("c12_message_gates", "c12")],
-    "C19": [("c19_uni_stream_header", "c19m")],
+    "C19": [("c19_uni_stream_header", "c19m"), ("c04_uni_stream_classification", "c04b")],
 }
 
 
